@@ -57,11 +57,16 @@ def check_session(inst, side, pw, ids, x, inbounds, acc, do_fresh=True, do_resto
     R, rp = inst.ref, inst.rp
     w = R.pw_scalar(pw)
     F = fam(inst)
-    exp_msg = RS.message(rp, side, w, x)
     s = inst.new(side, pw, ids, x)
     got = T.observe(s.start)
     acc.n(states=1, transitions=1)
     desc = {"inst": inst.desc, "side": side, "pw": pw, "ids": list(ids), "x": x}
+    # the oracle is built on the scalar the instance reports (the entropy -> scalar mapping is C11's subject)
+    xo = T.read_scalar(inst, s) if got[0] == "ok" else None
+    if xo is not None and xo != x:
+        acc.note("%s: the scalar drawn differs from the one the harness asked for (sampler behaviour is judged by C11)" % inst.name)
+        x = xo
+    exp_msg = RS.message(rp, side, w, x)
     if got != ("ok", exp_msg):
         acc.violation("C03/%s/%s/start-message" % (F, side),
                       {"what": "start() message differs from side byte + encode(x*G + w*blinding)", "replay": dict(desc, fn="start"),
@@ -84,7 +89,7 @@ def check_session(inst, side, pw, ids, x, inbounds, acc, do_fresh=True, do_resto
                     t = s
                     first = False
                 else:
-                    t = inst.new(side, pw, ids, x)
+                    t = inst.new(side, pw, ids, desc["x"])
                     t.start()
             else:
                 if not do_restored:
@@ -132,6 +137,42 @@ def _small_task(task):
         acc.sample({"inst": name, "side": side, "pw": pws[-1], "x": inst.q - 1,
                     "reference_message": RS.message(inst.rp, side, R.pw_scalar(pws[-1]), inst.q - 1)})
     return acc
+
+
+def _sequence_task(task):
+    """the same sessions on several parameter sets one after the other in ONE process (same group object with other seeds,
+    both role families on one parameter object, back to the first): conformance must not depend on what ran before"""
+    names, = task
+    acc = Acc()
+    insts = []
+    for n in names:
+        try:
+            if n.endswith("'"):
+                base = T.get(n[:-1])
+                s = base.rp.seeds
+                insts.append(T.reseeded(base, M=T.alt_seed(base, s[0], b"+"), N=T.alt_seed(base, s[1], b"+"), S=T.alt_seed(base, s[2], b"+"), name=n))
+            else:
+                insts.append(T.get(n))
+        except Exception as e:
+            acc.degrade("%s unavailable: %s: %s" % (n, type(e).__name__, e))
+    small = all(i.small for i in insts)
+    for order in (("ABS", "SBA") if small else ("SAB",)):
+        for inst in insts + insts[::-1]:
+            R = inst.ref
+            for pw in ((b"pw", b"M", b"symmetric") if small else (b"pw",)):
+                for side in order:
+                    label = C.PEER[side].encode()
+                    xs = range(min(inst.q, 4)) if inst.small else (2,)
+                    for x in xs:
+                        w = R.pw_scalar(pw)
+                        inb = [RS.message(inst.rp, C.PEER[side], w, (x + 1) % inst.q), label + R.enc(R.base())]
+                        check_session(inst, side, pw, C.ids_for(side, 1), x, inb, acc)
+    acc.sample({"sequence_of_parameter_sets_in_one_process": names})
+    return acc
+
+
+def _any_task(t):
+    return _sequence_task(t[1]) if t[0] == "seq" else _small_task(t[1])
 
 
 def _ids_task(task):
@@ -283,6 +324,12 @@ def _default_path(acc):
             acc.seen(("default", side, len(pw)))
 
 
+def _unusable(acc, name, why):
+    if T.lib_refuses_valid_group(name, why):
+        acc.violation("%s/int/parameter-set-over-valid-group-fails" % "C03", {"what": "a parameter set over the valid integer group %s (well-defined seeds) cannot be built through the public API: %s" % (name, why[4:]),
+                      "replay": {"fn": "build", "name": name}, "expected": "parameter set", "observed": why[4:]})
+
+
 def run(tier, seed):
     acc = Acc()
     quick = tier == "quick"
@@ -293,6 +340,7 @@ def run(tier, seed):
         inst, why = T.try_get(name)
         if inst is None:
             acc.degrade("%s unavailable: %s" % (name, why))
+            _unusable(acc, name, why)
             continue
         for side in "ABS":
             for ch in core.chunks(full, 8 if inst.kind == "int" else 24):
@@ -301,6 +349,7 @@ def run(tier, seed):
         inst, why = T.try_get(name)
         if inst is None:
             acc.degrade("%s unavailable: %s" % (name, why))
+            _unusable(acc, name, why)
             continue
         m = menu_witness(inst)
         if inst.q > 60:
@@ -308,14 +357,17 @@ def run(tier, seed):
         for side in "ABS":
             for ch in core.chunks(m, 6):
                 tasks.append((name, side, ch, False))
-    core.pmerge(_small_task, tasks, acc)
+    core.pmerge(_any_task, [("seq", t) for t in reversed([(["T23", "T23'", "T29"],), (["E37", "E37'"],), (["Params1024", "Params1024'"],),
+                                                         (["ParamsEd25519", "ParamsEd25519'"],)])] + [("small", t) for t in tasks], acc)
     core.pmerge(_ids_task, [(n, s) for n in (["T23", "E37"] if quick else ["T23", "T29", "E37", "E109"]) for s in "ABS"], acc)
+    tasks_seq = [(["T23", "T23'", "T29"],), (["E37", "E37'"],), (["Params1024", "Params1024'"],), (["ParamsEd25519", "ParamsEd25519'"],)]
     # shipped
     stasks = []
     for name in T.SHIPPED:
         inst, why = T.try_get(name)
         if inst is None:
             acc.degrade("%s unavailable: %s" % (name, why))
+            _unusable(acc, name, why)
             continue
         xs = C.edge_scalars(inst.q, seed, 1)
         xs = xs[:4] if quick else xs[:8]
@@ -334,6 +386,8 @@ def run(tier, seed):
 
 def replay(rec):
     r = T.unjson(rec["replay"])
+    if r.get("fn") == "build":
+        return T.try_get(r["name"])[1][4:]
     inst = T.build_inst(r["inst"])
     if r["fn"] == "const":
         P = inst.params
